@@ -248,3 +248,7 @@ fn lex_next_stream_eol() {
     else if e[0] == b'\r' && e[1] == b'\n' { assert!(r.is_some() && lx.get_pos() == 8); }
     else { assert!(lx.get_pos() <= 9); }
 }
+#[kani::proof]
+fn lex_number_class_l11() { number_class::<11>() }
+#[kani::proof]
+fn lex_number_class_l12() { number_class::<12>() }
